@@ -54,6 +54,8 @@ def _snap(t):
                 ok = False
     if (len(s["rows"]) != len(s["obs"])) or any(len(r) != len(s["samp"]) for r in s["rows"]):
         ok = False
+    if tuple(t.matrix_data.shape) != (len(s["obs"]), len(s["samp"])):
+        ok = False      # also when an axis is empty and the dense grid cannot show the disagreement
     if not ok:
         s["type"] = "!!inconsistent-table(index lookups or shape disagree with the IDs)"
     return s
@@ -739,7 +741,8 @@ def gen_spec(rng, n=None, m=None, holes=False, density=None, plain_values=False)
     if rng.random() < 0.15:
         # names shared across both axes
         k = min(n, m, rng.randint(1, 2))
-        samp[:k] = obs[:k]
+        samp = obs[:k] + [x for x in samp if x not in obs[:k]][:m - k]
+        samp += core.gen_ids(rng, m - len(samp), "S", "ascii")
     if degenerate:
         # one empty axis
         if rng.random() < 0.5:
@@ -1400,6 +1403,8 @@ def run_recipe(kind, seed, params):
     if kind == "systematic":
         W, spec = systematic_world(rng, params["route"], params["share"])
         name, p = systematic_templates(spec)[params["template"]]
+        if not W.live:
+            return W
         recv = prep_layout(W, 0, params["prep"], rng)
         p = copy.deepcopy(p)
         if name == "ctor_from_table":
